@@ -10,7 +10,7 @@ from lib import dbcgen as G
 from lib import matrices as M
 
 PID = "C05"
-EXTRA_PROPS = ("Num", "C05b", "C05c", "C05d")
+EXTRA_PROPS = ("Num", "C05b", "C05c", "C05d", "C05e")
 RULE = ("case 'rt' = a generated matrix of DBC-expressible content (identifier names incl. names longer than 32 characters, ECU names "
         "of >= 2 characters, standard/extended ids, CAN FD and J1939 frames, simple and extended multiplexing, float signals, limits, "
         "start values inside the limits and on the raw grid, cycle times, value tables with quotes, comments over several lines with "
@@ -19,8 +19,8 @@ RULE = ("case 'rt' = a generated matrix of DBC-expressible content (identifier n
         "variables, signals without frame; file encoding latin-1 or utf-8, comment encoding equal or utf-8 in a latin-1 file): written "
         "with canmatrix.formats.dump, read with loads, written again; observed: exception, 'error with line no' on stdout, byte "
         "equality of the two files, every path on which the normal forms (carrier attributes folded) differ. case 'file' = the frame "
-        "section of that file (BO_/SG_ lines) against the Lean writer and reader of Model/DbcText.lean. cases 'sg'/'bo'/'val'/'tx'/'vt'/'mul'/'def'/'dd'/'ba'/'cm' = one "
-        "statement (SG_, BO_, VAL_, BO_TX_BU_, SIG_VALTYPE_, SG_MUL_VAL_, BA_DEF_, BA_DEF_DEF_, BA_ of user attributes on all levels, CM_ comments over one or several lines): the line "
+        "section of that file (BO_/SG_ lines) against the Lean writer and reader of Model/DbcText.lean. cases 'sg'/'bo'/'val'/'tx'/'vt'/'mul'/'def'/'dd'/'ba'/'cm'/'vtab'/'grp' = one "
+        "statement (SG_, BO_, VAL_, BO_TX_BU_, SIG_VALTYPE_, SG_MUL_VAL_, BA_DEF_, BA_DEF_DEF_, BA_ of user attributes on all levels, CM_ comments over one or several lines, VAL_TABLE_, SIG_GROUP_): the line "
         "in the file against the Lean writer, and what the real reader makes of it alone against the Lean reader. Non-trivial = distinct case.")
 PARTIAL = ["the Lean model covers the frame section (BO_, SG_ with multiplex tags) at file level and VAL_ at statement level; comments, "
            "attributes, definitions, senders, signal groups, SG_MUL_VAL_, EV_ and the reader's post-processing are decided by the "
@@ -274,6 +274,17 @@ def cases_of(desc, rng=None):
         if ncm < 4 and all(ord(ch) < 128 for ch in cmt["text"]) and "\r" not in cmt["text"]:
             ncm += 1
             yield {"op": "cm", "c": {"m": desc, "cm": cmt}}
+    # global value tables and signal groups
+    for tname, tab in sorted(db.value_tables.items())[:2]:
+        if all("\\" not in str(t) and "\n" not in str(t) for t in tab.values()):
+            yield {"op": "vtab", "c": {"m": desc, "vtab": {"name": tname, "entries": [[str(k), str(t)] for k, t in tab.items()]}}}
+    ng = 0
+    for f in db.frames:
+        for g in f.signalGroups:
+            if ng < 3:
+                ng += 1
+                yield {"op": "grp", "c": {"m": desc, "grp": {"frame": f.arbitration_id.to_compound_integer(), "name": g.name, "id": int(g.id),
+                                                              "members": [out_name(x.name) for x in g.signals]}}}
     # further statements: senders beyond the first, float types, extended multiplexing bindings
     n = {"tx": 0, "vt": 0, "mul": 0}
     for f in db.frames:
@@ -340,6 +351,35 @@ def observe(case):
         fr = db.frames[0] if db.frames else None
         sg = (fr.signals[0] if fr and fr.signals else None) or (db.signals[0] if db.signals else None)
         return {"line": line, "parsed": {"id": v["id"], "name": v["name"], "entries": [[int(k), t] for k, t in sg.values.items()]} if sg is not None else None}
+    if op == "vtab":
+        v = c["vtab"]
+        line = next((l for l in r["lines"] if l.startswith("VAL_TABLE_ %s " % v["name"]) or l == "VAL_TABLE_ %s;" % v["name"]), None)
+        if line is None:
+            return {"line": "", "parsed": None}
+        import canmatrix.canmatrix as _cm
+        seen = {}
+        orig_add = _cm.CanMatrix.add_value_table
+
+        def rec(self, name, value_dict):          # what the statement hands over, before add_value_table turns the keys into numbers
+            seen[name] = [[str(k), str(t)] for k, t in value_dict.items()]
+            return orig_add(self, name, value_dict)
+        _cm.CanMatrix.add_value_table = rec
+        try:
+            load_lines([line], enc)
+        finally:
+            _cm.CanMatrix.add_value_table = orig_add
+        return {"line": line, "parsed": {"name": v["name"], "entries": seen[v["name"]]} if v["name"] in seen else None}
+    if op == "grp":
+        g = c["grp"]
+        line = next((l for l in r["lines"] if l.startswith("SIG_GROUP_ %d %s " % (g["frame"], g["name"]))), None)
+        if line is None:
+            return {"line": "", "parsed": None}
+        ctx = ["BO_ %d F: 64 Vector__XXX" % g["frame"]] + [' SG_ %s : %d|1@1+ (1,0) [0|1] "" Vector__XXX' % (mname, k) for k, mname in enumerate(g["members"])] + [""]
+        db2, _ = load_lines(ctx + [line], enc)
+        gs = db2.frames[0].signalGroups if db2.frames else []
+        if not gs:
+            return {"line": line, "parsed": None}
+        return {"line": line, "parsed": {"frame": g["frame"], "name": gs[0].name, "id": int(gs[0].id), "members": [x.name for x in gs[0].signals]}}
     if op == "cm":
         cmt = c["cm"]
         mo = None
